@@ -496,7 +496,25 @@ func (g *Gen) advTx() *world.TxJSON {
 		}
 	}
 	gasPool := []uint64{0, 1, 500, 5_000_000, ^uint64(0)}
-	return g.tx(caller, rcv, fn, args, gasPool[g.R.Intn(len(gasPool))], g.callTypeFor(caller, caller))
+	gas := gasPool[g.R.Intn(len(gasPool))]
+	ct := g.callTypeFor(caller, caller)
+	if spec.IsContract(caller) && g.W.Nodes[0].Pay.StateOf(caller) != world.Payable {
+		// the world's sending discipline holds for adversarial calls too: random arguments now and then
+		// spell a valid cross-shard transfer (receiver, or a destination among the arguments, on
+		// another shard), and a contract that is not payable sends those only through asynchronous
+		// calls - its refund could not come back otherwise (C09 forbids what C01 would demand)
+		n := g.W.Cfg.NumShards
+		cross := world.ShardOf(caller, n) != world.ShardOf(rcv, n)
+		for _, a := range args {
+			if len(a) == len(caller) && world.ShardOf(caller, n) != world.ShardOf(a, n) {
+				cross = true
+			}
+		}
+		if cross {
+			ct = spec.CallAsync
+		}
+	}
+	return g.tx(caller, rcv, fn, args, gas, ct)
 }
 
 // genSC produces one system-contract action.
